@@ -4,7 +4,7 @@
    argv.(1) = fuel (default 4000).
    For each program prints:
      ===BEGIN / <Cb source text>
-     ===REF <outcome> / <stdout> / ===MECH <outcome> / <stdout>          (every deviation on: dev_pinned)
+     ===REF <outcome> / <stdout> / ===MECH <outcome> / <stdout>          (dev_pinned: the switches of today's implementation)
      ===ONLY <switch> <outcome> / <stdout>    for each single switch whose transcript differs from Ref's
      ===END
    outcome := finished|div0|range|bounds|const|arity|unbound|undef|nofuel
